@@ -29,7 +29,7 @@ var fileProgs = []fileProg{
 		map[string]string{"lib.tengo": "x := 1\n\ny := x + \"s\"\nexport y\n"}},
 	{"error-in-nested-file", "top := import(\"top\")\nout := top.g(2)\n",
 		map[string]string{"top.tengo": "lib := import(\"sub/deep\")\nexport {g: func(v) { return lib.f(v) }}\n",
-			"sub/deep.tengo": "export {f: func(x) {\n\n\treturn [x][5]\n}}\n"}},
+			"sub/deep.tengo": "export {f: func(x) {\n\n\treturn x - \"s\"\n}}\n"}},
 	{"error-in-main-after-file-import", "lib := import(\"lib\")\nout := lib.one + \"s\"\n",
 		map[string]string{"lib.tengo": "export {one: 1}\n"}},
 	{"same-file-twice-and-value", "a := import(\"lib\")\nb := import(\"lib\")\nout := [a.one, b.one, a.one / 0]\n",
